@@ -11,13 +11,17 @@ Model (JSON):
             "head": "main" | "branch" | "detached",              # what is checked out when Griffe runs
             "dirty": {"modified": bool, "staged": bool, "untracked": bool, "stash": bool},
             "user_worktree": bool,                 # the user already has a linked worktree of their own
+            "sibling": None | "private" | "public",  # a second top-level package in the same repository that the first one re-exports
+                                                   # `sfunc` from: "_<pkg>" (loaded on demand with resolve_external=None/True) or
+                                                   # "<pkg>sib" (loaded on demand with resolve_external=True only)
             "ops": [op, ...]}                      # 1..3 operations, each judged against the snapshot taken before it
     commit = {"state": "ok" | "syntax_top" | "syntax_sub" | "absent", "variant": 0..3}
     op = {"op": "load_git" | "check",
           "ref": [kind, index],                    # kind in tag|branch|sha|short|HEAD|HEAD~1|unknown
           "base": None | [kind, index],            # check only: base_ref
           "against_none": bool,                    # check only: let Griffe pick the latest tag
-          "force": bool, "resolve_aliases": bool, "preexisting": bool,
+          "force": bool, "resolve_aliases": bool, "external": None | True | False,   # load_git: resolve_external
+          "preexisting": bool,
           "fault": None | {"type": "ext_exc" | "ext_kbi", "k": int} | {"type": "sub_nonzero" | "sub_oserror", "i": int}}
 
 All indices are taken modulo what exists, so every drawn model is valid and shrinks freely.
@@ -66,9 +70,18 @@ def git(repo, *args, check=True, env_extra=None) -> str:
 
 
 # ----------------------------------------------------------------------------- sources
-def render_commit(name: str, commit: dict, j: int) -> dict[str, str]:
-    """Files of the package (relative to the source dir) at one commit; {} when the package is absent."""
+def sibling_name(name: str, sibling) -> str | None:
+    if sibling == "private":
+        return f"_{name}"
+    if sibling == "public":
+        return f"{name}sib"
+    return None
+
+
+def render_commit(name: str, commit: dict, j: int, sibling=None) -> dict[str, str]:
+    """Files of the package(s) (relative to the source dir) at one commit; {} when the package is absent."""
     state, v = commit["state"], commit["variant"] % 4
+    sib = sibling_name(name, sibling)
     if state == "absent":
         return {}
     a_lines = [f'"""Module a (commit {j})."""', ""]
@@ -77,7 +90,7 @@ def render_commit(name: str, commit: dict, j: int) -> dict[str, str]:
         a_lines += ["def f1(p, q, *rest, flag=False):", "    if flag:", "        return q", "    return p", ""]
     if v >= 2:
         a_lines += ["def f2(only):", "    return only", ""]
-    a_lines += ["CONST = %d" % v, ""]
+    a_lines += ["CONST = 7", ""]  # same at every commit: a changed value would be a breakage of its own and mask the others
     b_lines = [f'"""Module b (commit {j})."""', "", "class K:", f'    """Class K v{v}."""', "", "    attr: int = 0", ""]
     b_lines += ["    def m(self, a" + (", b=None" if v % 2 else "") + "):", "        return a", ""]
     if v >= 2:
@@ -89,6 +102,18 @@ def render_commit(name: str, commit: dict, j: int) -> dict[str, str]:
         f"{name}/sub/__init__.py": '"""Sub-package."""\n',
         f"{name}/sub/b.py": "\n".join(b_lines),
     }
+    if sib:
+        files[f"{name}/__init__.py"] = (
+            f'"""Package {name}."""\n\nfrom {name}.a import f0\nfrom {name}.sub.b import K as Klass\nfrom {sib}.impl import sfunc\n\n'
+            '__all__ = ["f0", "Klass", "sfunc", "top"]\n\n\ndef top(z):\n    return z\n'
+        )
+        files[f"{sib}/__init__.py"] = f'"""Sibling package {sib} (commit {j})."""\n'
+        impl = [f'"""Implementation module of {sib}."""', ""]
+        if v % 2:
+            impl += [f"# a comment that shifts the lines (variant {v})", "", ""]
+        impl += ["def sfunc(a" + ("" if v % 2 else ", b") + "):", f'    """Sibling function v{v}."""', "    return a", ""]
+        impl += ["class SK:", "    def sm(self):", "        return 0", ""]
+        files[f"{sib}/impl.py"] = "\n".join(impl)
     if state == "syntax_top":
         files[f"{name}/__init__.py"] = f'"""Package {name}."""\n\ndef broken(:\n    pass\n'
     elif state == "syntax_sub":
@@ -106,7 +131,7 @@ def build_repo(case, base: Path) -> dict:
     shas = []
     prev: set[str] = set()
     for j, commit in enumerate(case["commits"]):
-        files = render_commit(name, commit, j)
+        files = render_commit(name, commit, j, case.get("sibling"))
         for rel in prev - set(files):
             (src / rel).unlink()
         for rel, text in files.items():
@@ -140,7 +165,7 @@ def build_repo(case, base: Path) -> dict:
     elif case["head"] == "detached":
         head_commit = max(0, len(shas) - 2)
         git(repo, "checkout", "-q", "--detach", shas[head_commit])
-    info = {"repo": repo, "name": name, "shas": shas, "tags": tags, "branches": branches, "head_commit": head_commit, "src": src}
+    info = {"repo": repo, "name": name, "sibling": sibling_name(name, case.get("sibling")), "shas": shas, "tags": tags, "branches": branches, "head_commit": head_commit, "src": src}
     # ---- the user's own uncommitted work, which must survive
     d = case["dirty"]
     if d.get("stash"):
@@ -213,7 +238,8 @@ def strategy():
             "base": st.one_of(st.none(), refspec),
             "against_none": st.sampled_from([False, False, False, True]),
             "force": st.sampled_from([False, False, True]),
-            "resolve_aliases": st.booleans(),
+            "resolve_aliases": st.sampled_from([True, True, False]),
+            "external": st.sampled_from([None, None, True, False]),
             "preexisting": st.sampled_from([False] * 7 + [True]),
             "fault": fault,
         }
@@ -229,6 +255,7 @@ def strategy():
             "head": st.sampled_from(["main", "main", "branch", "detached"]),
             "dirty": st.fixed_dictionaries({"modified": st.booleans(), "staged": st.booleans(), "untracked": st.booleans(), "stash": st.sampled_from([False, False, True])}),
             "user_worktree": st.sampled_from([False, False, False, True]),
+            "sibling": st.sampled_from([None, "private", "private", "public"]),
             "ops": st.lists(op, min_size=1, max_size=3),
         }
     )
